@@ -52,6 +52,26 @@ def gen(rng, tier, dist):
                 continue
             out.append("cap %d %s %s %s" % (cap, a.hex(), hx(t.encode()), show_args(ar)))
             dist["message-capacities"] = dist.get("message-capacities", 0) + 1
+    # fixed-capacity callers: RtData::reply / broadcast (8192-byte stack buffer)
+    for _ in range(60 if tier == "quick" else 2000):
+        a = gen_addr(rng)
+        t = rng.choice(["s", "ss", "b", "is", "sb"])
+        over = len(pad4z(a)) + len(pad4z(b"," + t.encode()))
+        target = 8192 + rng.choice([-8, -4, 0, 0, 4, 8, 100, -100])
+        ar = []
+        for k, x in enumerate(t):
+            last = k == len(t) - 1
+            if x == "i":
+                ar.append(("4", rng.getrandbits(32))); over += 4
+            elif x == "s":
+                n = max(0, target - over - 4) if last else rng.choice([0, 3, 8])
+                n = max(0, n - rng.choice([0, 1, 2, 3]))
+                ar.append(("s", rand_bytes(rng, n, nonul=True))); over += len(pad4z(ar[-1][1]))
+            else:
+                n = max(0, target - over - 4) if last else rng.choice([0, 3, 8])
+                ar.append(("b", n, rand_bytes(rng, n))); over += len(enc_payload(ar[-1]))
+        out.append("rt %s %s %s" % (a.hex(), hx(t.encode()), show_args(ar)))
+        dist["reply-8192"] = dist.get("reply-8192", 0) + 1
     nb = 60 if tier == "quick" else 1500
     for _ in range(nb):
         n = rng.choice([0, 1, 2, 3, 5, 8])
@@ -68,6 +88,16 @@ def gen(rng, tier, dist):
 def spec_check(case, impl):
     f = case.split(" ")
     got = parse_fields(impl)
+    if f[0] == "rt":
+        addr = bytes.fromhex(f[1]); tags = bytes.fromhex(f[2]).decode("latin1")
+        enc = enc_spec(addr, tags, parse_args(f[3]))
+        want = "EMPTY" if len(enc) > 8192 else enc.hex()
+        if impl.startswith("CRASH") or impl == "NOOUT":
+            return "buffer-discipline: RtData::reply/broadcast crashed (%s)" % impl[:300]
+        if got.get("rp") != want or got.get("bc") != want:
+            return ("buffer-discipline: RtData::reply/broadcast (capacity 8192, needed %d) forwarded %s / %s, "
+                    "the property demands %s" % (len(enc), str(got.get("rp"))[:60], str(got.get("bc"))[:60], want[:60]))
+        return None
     if f[0] == "cap":
         cap = int(f[1]); addr = bytes.fromhex(f[2]); tags = "" if f[3] == "-" else bytes.fromhex(f[3]).decode("latin1")
         enc = enc_spec(addr, tags, parse_args(f[4]))
